@@ -250,6 +250,139 @@ ENTRIES = ["cola::ConstrainedFDLayout::run", "cola::ConstrainedFDLayout::runOnce
            "cola::ConstrainedMajorizationLayout::run"]
 
 
+def rule_makefeasible(chk, prog):
+    r = chk.rule("MAKEFEASIBLE-PROTOCOL", "ConstrainedFDLayout::makeFeasible: (a) every constraint appended to valid[dim] is followed by "
+                 "solver[dim]->satisfy() before the loop moves on -- in the combined-sub-constraint branch both dimensions are satisfied "
+                 "unconditionally; (b) after satisfy() the *whole* valid[dim] set is scanned for `unsatisfiable`: each flagged constraint "
+                 "is un-flagged and makes the attempt fail; (c) a failed attempt deletes the solver, restores every saved position and "
+                 "removes exactly the newly added constraint; (d) positions are saved for every variable before each attempt", floor=5)
+    fn = prog.fn("cola::ConstrainedFDLayout::makeFeasible")
+    g = CFG(fn)
+    sats = [c for c in calls(fn) if c.get("cname") == "vpsc::IncSolver::satisfy"]
+    pushes = [c for c in calls(fn) if c.get("cname", "").endswith("::push_back") and norm(call_object(c)).startswith("valid[")]
+    if len(sats) < 2 or len(pushes) < 2:
+        raise AnalysisBroken("makeFeasible: satisfy()/valid[dim].push_back sites not recognised (%d, %d)" % (len(sats), len(pushes)))
+    # (a) combined branch: the per-dimension loop calls satisfy in every iteration
+    r.count()
+    comb = [lp for lp in fn.nodes() if lp.get("k") == "ForStmt" and "(dim < 2)" in norm(lp.get("cond")) and
+            any(c.get("cname") == "vpsc::IncSolver::satisfy" for c in walk(lp["body"]))]
+    bad = None
+    if len(comb) != 1:
+        bad = "the loop that satisfies both dimensions after combined sub-constraints is gone"
+    else:
+        ids = [c["id"] for c in walk(comb[0]["body"]) if c.get("cname") == "vpsc::IncSolver::satisfy"]
+        w = g.iteration_can_skip(comb[0], ids)
+        if w is not None:
+            bad = "after adding combined sub-constraints a dimension can be left unsolved (%s): positions written back do not satisfy the " \
+                  "constraints just added to an existing solver" % g.describe(w)
+    (r.bad if bad else r.ok)("combined sub-constraints: both dimensions satisfied", fn.loc(comb[0]) if comb else fn.where(), bad or "")
+    # (a') alternative branch: push_back ... satisfy on every path inside the try block
+    r.count()
+    alt_push = [p_ for p_ in pushes if any(a.get("k") == "CXXTryStmt" for a in fn.ancestors(p_))]
+    bad = None
+    if len(alt_push) != 1:
+        bad = "the attempt block (try { push_back; satisfy }) is not recognised"
+    else:
+        tr = [a for a in fn.ancestors(alt_push[0]) if a.get("k") == "CXXTryStmt"][0]
+        inside = [c["id"] for c in sats if any(a is tr for a in fn.ancestors(c))]
+        body_last = [n["id"] for n in walk(tr) if n.get("id") in g.pos]
+        if not inside:
+            bad = "satisfy() is not called in the attempt"
+        else:
+            # from the push_back, reaching the scan loop without satisfy() (normal flow)
+            scan = [lp for lp in fn.nodes() if lp.get("k") == "ForStmt" and "valid[dim].size()" in norm(lp.get("cond"))]
+            if scan:
+                first = [e for e in [x["id"] for x in walk(scan[0].get("init") or {}) if x.get("id") in g.pos]]
+                if first and g.search([g.after(alt_push[0]["id"])], blocked=inside, targets=first[:1]) is not None:
+                    bad = "a constraint can be added to the valid set and checked without satisfy() having run"
+    (r.bad if bad else r.ok)("attempt: add then satisfy", fn.loc(alt_push[0]) if alt_push else fn.where(), bad or "")
+    # (b) scan of the whole valid set
+    r.count()
+    scan = [lp for lp in fn.nodes() if lp.get("k") == "ForStmt" and "valid[dim].size()" in norm(lp.get("cond"))]
+    bad = None
+    if len(scan) != 1:
+        bad = "after satisfy() the valid set is no longer scanned as a whole for constraints flagged unsatisfiable (an earlier constraint " \
+              "blamed by the solver keeps its stale flag and is ignored by every later solver instance)"
+    else:
+        lp = scan[0]
+        ini = lp.get("init")
+        d0 = ini["decls"][0] if ini is not None and ini.get("k") == "DeclStmt" else None
+        if d0 is None or literal_value(d0.get("init")) != "0" or norm(lp["cond"]) != "(%s < valid[dim].size())" % d0["name"]:
+            bad = "the scan does not cover valid[dim][0 .. size)"
+        else:
+            clr = [node for lhs, node, op in writes(fn) if node["id"] in {x.get("id") for x in walk(lp["body"])} and
+                   written_field(lhs)[0] == "vpsc::Constraint::unsatisfiable" and literal_value(node["ch"][1]) == "false"]
+            fail = [node for lhs, node, op in writes(fn) if node["id"] in {x.get("id") for x in walk(lp["body"])} and
+                    norm(lhs) == "subConstraintSatisfiable" and literal_value(node["ch"][1]) == "false"]
+            if not clr or not fail:
+                bad = "a flagged constraint is not both un-flagged and counted as a failed attempt"
+            else:
+                for what, st in (("un-flagging", clr[0]), ("failing the attempt", fail[0])):
+                    pc = path_condition(fn, st, inline=False)
+                    ats = [a for a in atoms(pc) if "unsatisfiable" in a]
+                    if len(ats) != 1 or ats[0] != "valid[dim][%s].unsatisfiable" % d0["name"] or not entails(("atom", ats[0]), _drop(pc)):
+                        bad = bad or "%s happens under %s, not for every flagged valid[dim][i]" % (what, show(pc)[:160])
+    (r.bad if bad else r.ok)("scan of the valid set", fn.loc(scan[0]) if scan else fn.where(), bad or "")
+    # (c) rollback
+    r.count()
+    dels = [n for n in fn.nodes() if n.get("k") == "CXXDeleteExpr" and norm(n["ch"][0]) in ("solver[dim]",)]
+    bad = None
+    rb = None
+    for d in dels:
+        pc = path_condition(fn, d, inline=False)
+        if entails(pc, ("not", ("atom", "subConstraintSatisfiable"))):
+            rb = [a for a in fn.ancestors(d) if a.get("k") == "IfStmt" and norm(a["cond"]) == "!subConstraintSatisfiable"]
+            rb = rb[0] if rb else None
+    if rb is None:
+        bad = "a failed attempt no longer discards the solver instance"
+    else:
+        body = list(walk(rb["then"]))
+        bids = {x.get("id") for x in body}
+        null = [node for lhs, node, op in writes(fn) if node["id"] in bids and norm(lhs) == "solver[dim]" and
+                strip_casts(node["ch"][1]).get("k") in ("CXXNullPtrLiteralExpr", "GNUNullExpr", "IntegerLiteral")]
+        rest = [node for lhs, node, op in writes(fn) if node["id"] in {x.get("id") for x in body} and
+                written_field(lhs)[0] == "vpsc::Variable::finalPosition" and "priorPos[" in norm(node["ch"][1])]
+        pop = [c for c in body if c.get("cname", "").endswith("::pop_back") and norm(call_object(c)) == "valid[dim]"]
+        dl = [n for n in body if n.get("k") == "CXXDeleteExpr" and norm(n["ch"][0]) == "valid[dim].back()"]
+        if not null:
+            bad = "the discarded solver pointer is not reset"
+        elif not rest:
+            bad = "positions are not restored after a failed attempt"
+        elif not pop or not dl:
+            bad = "the rejected constraint is not removed from the valid set"
+        else:
+            lp = [a for a in fn.ancestors(rest[0]) if a.get("k") == "ForStmt"]
+            if not lp or "priorPos.size()" not in norm(lp[0].get("cond")) or g.iteration_can_skip(lp[0], [rest[0]["id"]]) is not None:
+                bad = "not every variable's position is restored"
+    (r.bad if bad else r.ok)("rollback of a failed attempt", fn.loc(rb) if rb else fn.where(), bad or "")
+    # (d) save before each attempt
+    r.count()
+    sv = [node for lhs, node, op in writes(fn) if norm(lhs).startswith("priorPos[") and "finalPosition" in norm(node["ch"][1])]
+    bad = None
+    if not sv:
+        bad = "positions are not saved before an attempt"
+    else:
+        lp = [a for a in fn.ancestors(sv[0]) if a.get("k") == "ForStmt"]
+        if not lp or "priorPos.size()" not in norm(lp[0].get("cond")) or g.iteration_can_skip(lp[0], [sv[0]["id"]]) is not None:
+            bad = "not every variable's position is saved"
+        elif alt_push and g.must_precede([x["id"] for x in walk(lp[0].get("init") or {}) if x.get("id") in g.pos][:1], alt_push[0]["id"]) is not None:
+            bad = "an attempt can start without the positions having been saved"
+    (r.bad if bad else r.ok)("positions saved before each attempt", fn.loc(sv[0]) if sv else fn.where(), bad or "")
+
+
+def _drop(f):
+    if f[0] == "atom":
+        return ("const", True) if ("size()" in f[1] or ".end()" in f[1] or ".empty()" in f[1] or "Remaining()" in f[1]) else f
+    if f[0] == "const":
+        return f
+    if f[0] == "not":
+        inner = _drop(f[1])
+        if f[1][0] == "atom" and inner == ("const", True):
+            return ("const", True)          # a dropped literal is dropped in both polarities
+        return ("not", inner)
+    return (f[0], _drop(f[1]), _drop(f[2]))
+
+
 def rule_sizes(chk, prog, cg):
     r = chk.rule("SIZES-KEPT", "functions reachable from ConstrainedFDLayout::run/runOnce/makeFeasible and ConstrainedMajorizationLayout::run "
                  "that write a Rectangle's extent are only the size-preserving movers (see C09 MOVERS-AFFINE), or setMinD/setMaxD called "
@@ -288,4 +421,5 @@ def run(chk):
     rule_translators(chk, prog)
     rule_creator(chk, prog)
     rule_projection(chk, prog)
+    rule_makefeasible(chk, prog)
     rule_sizes(chk, prog, cg)
